@@ -63,6 +63,7 @@ type Op struct {
 	T    int64  `json:"t,omitempty"`
 	Dev  int    `json:"dev,omitempty"`
 	A    string `json:"a,omitempty"`
+	Via  bool   `json:"via,omitempty"` // through the sub-filesystem view (subfs cases)
 }
 
 func gpath(p string) string { return gal.StrList(strings.Split(p, "/")) }
@@ -143,6 +144,7 @@ func kindOf(m fs.FileMode) string {
 
 type world struct {
 	fsys    apkfs.FullFS
+	sub     apkfs.FullFS // SubFS{FS: fsys, Root: root} (subfs cases)
 	handles []apkfs.File
 	isDir   bool // directory-backed: host times are not observed
 }
@@ -172,6 +174,9 @@ func (w *world) step(o Op) (out string) {
 		}
 	}()
 	f := w.fsys
+	if o.Via {
+		f = w.sub
+	}
 	var hd apkfs.File
 	switch o.K {
 	case "Read", "ReadAt", "Write", "Seek", "Close":
@@ -316,20 +321,23 @@ const (
 	tMem = iota
 	tTar
 	tDir
+	tSubMem
+	tSubTar
 )
 
-var targetNames = []string{"TMem", "TTar", "TDir"}
+var targetNames = []string{"TMem", "TTar", "TDir", "TSubMem", "TSubTar"}
 
 type desc struct {
 	Target string   `json:"target"`
 	Gen    string   `json:"generator"`
+	Root   string   `json:"root,omitempty"` // subfs cases: SubFS.Root
 	Ops    []Op     `json:"ops"`
 	Obs    []string `json:"observed"`
 }
 
 // observe runs one sequence on one real filesystem and returns the operations and
 // the observed results as Gallina terms.
-func observe(target int, gen string, ops []Op) (gops, obs []string) {
+func observe(target int, gen, root string, ops []Op) (gops, obs []string) {
 	var wd world
 	var tmp string
 	switch target {
@@ -337,6 +345,12 @@ func observe(target int, gen string, ops []Op) (gops, obs []string) {
 		wd.fsys = apkfs.NewMemFS()
 	case tTar:
 		wd.fsys = tarfs.New()
+	case tSubMem:
+		wd.fsys = apkfs.NewMemFS()
+		wd.sub = &apkfs.SubFS{FS: wd.fsys, Root: root}
+	case tSubTar:
+		wd.fsys = tarfs.New()
+		wd.sub = &apkfs.SubFS{FS: wd.fsys, Root: root}
 	case tDir:
 		var err error
 		tmp, err = os.MkdirTemp("", "c17-dirfs-")
@@ -355,7 +369,7 @@ func observe(target int, gen string, ops []Op) (gops, obs []string) {
 		// a step that does not return (resolution of relative links is exponential
 		// in the number of linked components) must not hang the check
 		wdog := time.AfterFunc(60*time.Second, func() {
-			b, _ := json.Marshal(desc{targetNames[target], gen, ops[:i+1], obs[:i]})
+			b, _ := json.Marshal(desc{targetNames[target], gen, root, ops[:i+1], obs[:i]})
 			fmt.Printf("IMPL-VIOLATION tag=step-does-not-return %s\n", b)
 			os.Exit(3)
 		})
@@ -377,14 +391,155 @@ func observe(target int, gen string, ops []Op) (gops, obs []string) {
 	return gops, obs
 }
 
-func caseTerm(target int, gops, obs []string) string {
-	return fmt.Sprintf("{| c_target := %s; c_ops := %s; c_obs := %s |}", targetNames[target], gal.List(gops), gal.List(obs))
+func caseTerm(target int, root string, ops []Op, gops, obs []string) string {
+	groot, gvia := "[]", "[]"
+	if target == tSubMem || target == tSubTar {
+		groot = gpath(root)
+		v := make([]string, len(ops))
+		for i, o := range ops {
+			v[i] = gal.Bool(o.Via)
+		}
+		gvia = gal.List(v)
+	}
+	return fmt.Sprintf("{| c_target := %s; c_ops := %s; c_obs := %s; c_root := %s; c_via := %s |}",
+		targetNames[target], gal.List(gops), gal.List(obs), groot, gvia)
 }
 
-func runCase(w *gal.Writer, target int, gen string, ops []Op) {
-	gops, obs := observe(target, gen, ops)
-	w.Add(gal.Case{Term: caseTerm(target, gops, obs), Class: targetNames[target] + "/" + gen, Trivial: len(ops) == 0,
-		Desc: desc{targetNames[target], gen, ops, obs}})
+func runCase(w *gal.Writer, target int, gen string, ops []Op) { runCaseRoot(w, target, gen, "", ops) }
+
+func runCaseRoot(w *gal.Writer, target int, gen, root string, ops []Op) {
+	gops, obs := observe(target, gen, root, ops)
+	record(target, ops, obs)
+	w.Add(gal.Case{Term: caseTerm(target, root, ops, gops, obs), Class: targetNames[target] + "/" + gen, Trivial: len(ops) == 0,
+		Desc: desc{targetNames[target], gen, root, ops, obs}})
+}
+
+// ---- what the generated sequences exercise (evidence: STAT lines) --------------------------------
+
+var (
+	opResult   = map[string]map[string]int{} // operation kind -> result class -> steps (all targets)
+	opResultBy = map[string]map[string]int{} // target -> "Op/class" -> steps
+	pathShapes = map[string]int{}
+	seqLens    = map[string]int{}
+)
+
+func resultClass(obs string) string {
+	switch {
+	case strings.HasPrefix(obs, "(OErr "):
+		return strings.TrimSuffix(strings.TrimPrefix(obs, "(OErr "), ")")
+	case obs == "OPanic":
+		return "Panic"
+	}
+	return "ok"
+}
+
+func shapeOf(p string) string {
+	parts := strings.Split(p, "/")
+	switch {
+	case p == "":
+		return "empty"
+	case p == "/" || p == ".":
+		return "root"
+	}
+	dd, odd := false, false
+	for i, c := range parts {
+		switch {
+		case c == "..":
+			dd = true
+		case c == ".":
+			odd = true
+		case c == "" && i > 0:
+			odd = true
+		}
+	}
+	abs := strings.HasPrefix(p, "/")
+	switch {
+	case dd:
+		return "dotdot"
+	case odd:
+		return "dot-or-empty-component"
+	case abs:
+		return fmt.Sprintf("rooted-depth%d", len(parts)-1)
+	}
+	return fmt.Sprintf("relative-depth%d", len(parts))
+}
+
+func record(target int, ops []Op, obs []string) {
+	tn := targetNames[target]
+	if opResultBy[tn] == nil {
+		opResultBy[tn] = map[string]int{}
+	}
+	bucket := "1-10"
+	switch n := len(ops); {
+	case n > 40:
+		bucket = ">40"
+	case n > 20:
+		bucket = "21-40"
+	case n > 10:
+		bucket = "11-20"
+	}
+	seqLens[bucket]++
+	for i, o := range ops {
+		c := resultClass(obs[i])
+		if opResult[o.K] == nil {
+			opResult[o.K] = map[string]int{}
+		}
+		opResult[o.K][c]++
+		opResultBy[tn][o.K+"/"+c]++
+		switch o.K {
+		case "Read", "ReadAt", "Write", "Seek", "Close":
+		default:
+			pathShapes["name:"+shapeOf(o.P)]++
+			if o.K == "Symlink" {
+				pathShapes["target:"+shapeOf(o.Q)]++
+			}
+			if o.K == "Link" {
+				pathShapes["name:"+shapeOf(o.Q)]++
+			}
+		}
+	}
+}
+
+// the result classes the MODEL of the in-memory filesystems can produce per operation
+// kind (Model/MemFS.v); the quick tier must show every one of them (corpus scenario
+// coverage/every-op-every-class does, independently of the seed)
+var modelledClasses = map[string][]string{
+	"Mkdir": {"ok", "ENotExist", "EExist", "EOther"}, "MkdirAll": {"ok", "ENotExist", "EOther"},
+	"OpenFile": {"ok", "ENotExist", "EOther"}, "Create": {"ok", "ENotExist", "EOther"},
+	"Read": {"ok", "EEOF", "EClosed"}, "ReadAt": {"ok", "EEOF", "EClosed", "EOther"}, "Write": {"ok", "EClosed"},
+	"Seek": {"ok", "EClosed", "EOther"}, "Close": {"ok", "EClosed"},
+	"ReadFile": {"ok", "ENotExist", "EOther"}, "WriteFile": {"ok", "ENotExist", "EOther"}, "ReadDir": {"ok", "ENotExist", "EOther"},
+	"Stat": {"ok", "ENotExist", "EOther"}, "Lstat": {"ok", "ENotExist", "EOther"},
+	"Symlink": {"ok", "ENotExist", "EExist", "EOther"}, "Link": {"ok", "ENotExist", "EExist", "EOther"},
+	"Readlink": {"ok", "ENotExist", "EOther"}, "Remove": {"ok", "ENotExist", "EOther"},
+	"Chmod": {"ok", "ENotExist", "EOther"}, "Chown": {"ok", "ENotExist", "EOther"}, "Chtimes": {"ok", "ENotExist", "EOther"},
+	"Mknod": {"ok", "ENotExist", "EExist", "EOther"}, "Readnod": {"ok", "ENotExist", "EOther"},
+	"SetXattr": {"ok", "ENotExist"}, "GetXattr": {"ok", "ENotExist"}, "RemoveXattr": {"ok", "ENotExist"}, "ListXattrs": {"ok", "ENotExist"},
+}
+
+func printStats() {
+	uncovered := []string{}
+	kinds := make([]string, 0, len(modelledClasses))
+	for k := range modelledClasses {
+		kinds = append(kinds, k)
+	}
+	sort.Strings(kinds)
+	for _, k := range kinds {
+		for _, c := range modelledClasses[k] {
+			if opResult[k][c] == 0 {
+				uncovered = append(uncovered, k+"/"+c)
+			}
+		}
+	}
+	errs := map[string]int{}
+	for _, m := range opResult {
+		for c, n := range m {
+			errs[c] += n
+		}
+	}
+	b, _ := json.Marshal(map[string]any{"op_result_matrix": opResult, "op_result_by_target": opResultBy, "result_classes": errs,
+		"path_shapes": pathShapes, "sequence_lengths": seqLens, "modelled_pairs_not_exercised": uncovered})
+	fmt.Printf("STAT %s\n", b)
 }
 
 func fsWalkChmod(root string) error {
@@ -479,6 +634,93 @@ func budgetPerLookup() []Op {
 		p1("Stat", "m39/l"), p1("ReadFile", "m39/l"))
 }
 
+// one step for every (operation kind, result class) pair the model of the in-memory
+// filesystems can produce; "loop" is a link to itself, "f" a file, "d" a directory
+func coverage() []Op {
+	x := func(k, p string) Op { return Op{K: k, P: p, Perm: 0o644, A: "user.a", B: []byte("v"), Dev: 259, T: 1000000, Uid: 1, Gid: 2} }
+	ops := []Op{wfile("f", "abc"), mkdir("d"), symlink("loop", "loop"), symlink("nowhere", "dangling")}
+	for _, k := range []string{"Mkdir", "Symlink", "Link", "Mknod"} {
+		for _, p := range []string{"new" + k, "nodir/x", "f", "f/x"} { // ok, ENotExist, EExist, EOther
+			o := x(k, p)
+			o.Q = "f"
+			ops = append(ops, o)
+		}
+	}
+	ops = append(ops, mkdirall("d/a/b"), mkdirall("dangling/x"), mkdirall("f/x"))
+	for _, k := range []string{"Create", "WriteFile"} {
+		ops = append(ops, x(k, "new"+k), x(k, "nodir/x"), x(k, "d"))
+	}
+	ops = append(ops, open("f", fl(2)), open("nope", fl(0)), open("d", fl(0))) // handles: 0 newCreate, 1 f
+	for _, k := range []string{"ReadFile", "ReadDir", "Stat", "Lstat", "Chmod", "Chown", "Chtimes"} {
+		okp := "f"
+		bad := "loop"
+		if k == "ReadDir" {
+			okp, bad = "d", "f"
+		}
+		ops = append(ops, x(k, okp), x(k, "nope"), x(k, bad))
+	}
+	ops = append(ops, p1("Readlink", "dangling"), p1("Readlink", "nope"), p1("Readlink", "f"),
+		p1("Readnod", "newMknod"), p1("Readnod", "nope"), p1("Readnod", "f"),
+		p1("Remove", "newMkdir"), p1("Remove", "nope"), p1("Remove", "loop/x"))
+	for _, k := range []string{"SetXattr", "GetXattr", "ListXattrs", "RemoveXattr"} {
+		ops = append(ops, x(k, "f"), x(k, "nope"))
+	}
+	ops = append(ops, read(1, 2), seek(1, 0, 2), read(1, 2), readat(1, 2, 1), readat(1, 2, 9), readat(1, 2, -1), write(1, "z"), seek(1, 0, 0), seek(1, -1, 0),
+		closeh(1), closeh(1), read(1, 1), readat(1, 1, 0), write(1, "z"), seek(1, 0, 0))
+	return ops
+}
+
+// ---- the sub-filesystem view ------------------------------------------------------------------
+
+type subScenario struct {
+	name string
+	root string
+	ops  []Op
+}
+
+func via(ops ...Op) []Op {
+	out := make([]Op, len(ops))
+	for i, o := range ops {
+		o.Via = true
+		out[i] = o
+	}
+	return out
+}
+
+func cat(l ...[]Op) []Op {
+	var out []Op
+	for _, x := range l {
+		out = append(out, x...)
+	}
+	return out
+}
+
+func subCorpus() []subScenario {
+	return []subScenario{
+		{"subfs/joined-names", "d/e", cat([]Op{mkdirall("d/e"), wfile("out", "o")},
+			via(wfile("f", "abc"), p1("ReadFile", "f"), p1("ReadFile", "/f"), p1("ReadFile", "./f"), mkdir("x"), wfile("/x/./g", "g"), p1("ReadDir", "."), p1("ReadDir", "/"), p1("ReadDir", ""), p1("Stat", "x/g"),
+				open("h", fl(2, "creat")), write(0, "hh"), p1("ReadFile", "h"), Op{K: "Chmod", P: "h", Perm: 0o600}, p1("Stat", "h"), p1("Lstat", "x"), mkdirall("p/q"), p1("Remove", "f"), p1("ReadFile", "out"), p1("Stat", "d"),
+				Op{K: "SetXattr", P: "h", A: "user.a", B: []byte("1")}, p1("ListXattrs", "h"), Op{K: "Mknod", P: "n", Perm: 0o660, Dev: 259}, p1("Readnod", "n"), p1("Create", "c"), Op{K: "Chown", P: "c", Uid: 5, Gid: 6}, Op{K: "Chtimes", P: "c", T: 1000000}),
+			[]Op{p1("ReadDir", "d/e"), p1("ReadDir", "/"), p1("ReadFile", "d/e/h"), p1("Stat", "d/e/c")})},
+		// C17-F21: a ".." in the name climbs out of the root
+		{"subfs/dotdot-escapes", "d", cat([]Op{mkdir("d"), wfile("out", "secret")},
+			via(wfile("../x", "1"), p1("ReadFile", "../out"), p1("Stat", ".."), p1("ReadDir", ".."), mkdir("../m"), p1("Remove", "../out"), wfile("a/../../y", "2"), p1("Stat", "../nope"), wfile("a/../z", "3"), p1("ReadDir", ".")),
+			[]Op{p1("ReadDir", "/"), p1("ReadFile", "x"), p1("ReadDir", "d")})},
+		// C17-F22: Symlink and Link pass their names on unjoined
+		{"subfs/symlink-link-unjoined", "d", cat([]Op{mkdir("d"), wfile("d/f", "1")},
+			via(symlink("f", "l"), p1("Readlink", "l"), p1("ReadFile", "l"), p1("ReadFile", "f"), link("f", "g"), p1("ReadDir", "."), symlink("f", "d/l2"), p1("Readlink", "l2"), link("d/f", "d/g2"), p1("ReadFile", "g2")),
+			[]Op{p1("Readlink", "l"), p1("ReadDir", "/"), p1("ReadDir", "d")})},
+		{"subfs/rooted-root", "/d", cat([]Op{mkdir("d"), wfile("out", "o")},
+			via(wfile("f", "abc"), p1("ReadFile", "/f"), mkdirall("a/b"), p1("ReadDir", "/"), p1("Stat", "."), p1("Remove", "f"), p1("ReadFile", "../out")),
+			[]Op{p1("ReadDir", "d")})},
+		{"subfs/links-inside", "d", cat([]Op{mkdir("d"), mkdir("d/t"), symlink("t", "d/l"), wfile("d/t/f", "x"), symlink("/out", "d/abs"), wfile("out", "o")},
+			via(p1("ReadFile", "l/f"), wfile("l/g", "y"), p1("ReadDir", "t"), p1("ReadFile", "abs"), p1("Stat", "l"), p1("Lstat", "l"), p1("Readlink", "l"), mkdirall("l/p/q"), p1("Remove", "l/f")),
+			[]Op{p1("ReadDir", "d/t")})},
+		{"subfs/missing-root", "nodir", cat(via(wfile("f", "x"), p1("ReadDir", "."), mkdirall("a"), p1("ReadDir", ".")), []Op{p1("ReadDir", "/"), p1("ReadDir", "nodir")})},
+		{"subfs/root-is-file", "f", cat([]Op{wfile("f", "x")}, via(wfile("g", "y"), p1("ReadDir", "."), p1("ReadFile", "."), p1("Stat", "")))},
+	}
+}
+
 func corpus() []scenario {
 	rep := func(s string, n int) string { return strings.TrimSuffix(strings.Repeat(s+"/", n), "/") }
 	return []scenario{
@@ -533,6 +775,20 @@ func corpus() []scenario {
 			wfile("d", "1"), mkdir("d"), p1("Remove", "d"), mkdir("d"), wfile("d", "2"), Op{K: "Chtimes", P: "nope", T: 1000000}, Op{K: "Chtimes", P: "f", T: 1000000}, Op{K: "Chmod", P: "nope", Perm: 0o600}, open("f", fl(0, "creat", "excl")), p1("Create", "d"), p1("ReadDir", ".")}},
 		{"dirfs/unclean-nonclimbing", true, []Op{mkdir("a"), wfile("a/../g", "x"), p1("ReadFile", "g"), p1("Stat", "./g"), mkdir("./h"), p1("ReadDir", "."), wfile("a//k", "y"), p1("ReadFile", "a/k"), p1("Stat", "a/"), p1("Remove", "a/./k"), p1("ReadDir", "a"),
 			mkdirall("a/./x/../y"), p1("ReadDir", "a"), symlink("g", "a/../s"), p1("ReadFile", "s"), p1("Readlink", "s"), link("./g", "a/./hl"), p1("ReadFile", "a/hl"), p1("Remove", "a/"), p1("ReadDir", ".")}},
+		// rooted names on the directory-backed filesystem (filepath.Join absorbs the slash; the overlay keeps it), Mknod / Readnod there
+		{"dirfs/rooted-names", true, []Op{mkdir("/d"), wfile("/d/f", "abc"), symlink("d", "/l"), p1("Stat", "l/f"), p1("Stat", "/l/f"), p1("ReadDir", "/"), p1("ReadDir", "/d"), open("/l/g", fl(2, "creat")), write(0, "9"),
+			p1("ReadFile", "d/g"), p1("ReadFile", "/d/g"), Op{K: "Chmod", P: "/d/g", Perm: 0o600}, p1("Stat", "d/g"), link("/d/g", "/h"), p1("ReadFile", "h"), p1("Lstat", "/d"), p1("Readlink", "/l"), p1("Remove", "/d/f"),
+			mkdirall("/d/x/y"), p1("ReadDir", "l"), p1("Stat", "/"), p1("Lstat", "/"), Op{K: "SetXattr", P: "/h", A: "user.a", B: []byte("1")}, Op{K: "GetXattr", P: "d/g", A: "user.a"},
+			Op{K: "Chown", P: "/d", Uid: 3, Gid: 4}, Op{K: "Chtimes", P: "/d/g", T: 1000000}, p1("Create", "/d/c"), p1("Remove", "/"), mkdir("/"), p1("ReadDir", "/"), mkdirall("/")}},
+		{"dirfs/mknod", true, []Op{Op{K: "Mknod", P: "null", Perm: 0o660, Dev: 259}, p1("Readnod", "null"), p1("Stat", "null"), p1("Lstat", "null"), p1("ReadFile", "null"), p1("ReadDir", "."),
+			mkdir("d"), Op{K: "Mknod", P: "/d/n", Perm: 0o600, Dev: 261}, p1("Readnod", "d/n"), p1("Readnod", "d"), p1("Readnod", "nope"), p1("Readnod", "d/nope/x"),
+			symlink("d/n", "ln"), p1("Readnod", "ln"), symlink("nowhere", "dl"), p1("Readnod", "dl"), Op{K: "Mknod", P: "nodir/x", Perm: 0o660, Dev: 259},
+			// C17-F20: Mknod on an existing name: the error is os.WriteFile's, an existing regular file is emptied
+			wfile("f", "abc"), Op{K: "Mknod", P: "f", Perm: 0o660, Dev: 259}, p1("ReadFile", "f"), p1("Stat", "f"), Op{K: "Mknod", P: "d", Perm: 0o660, Dev: 259}, p1("ReadDir", "d"),
+			Op{K: "Mknod", P: "null", Perm: 0o660, Dev: 260}, p1("Readnod", "null"), Op{K: "Mknod", P: "ln", Perm: 0o660, Dev: 259}, p1("Remove", "null"), p1("Readnod", "null"), p1("ReadDir", ".")}},
+		{"dirfs/readnod-dangling-link", true, []Op{symlink("nowhere", "dl"), p1("Readnod", "dl")}}, // C17-F23
+		// every operation kind with every result class its model can produce (the statistics of the run say so: modelled_pairs_not_exercised)
+		{"coverage/every-op-every-class", false, coverage()},
 		{"chain/39", false, chain(39)},
 		{"chain/40", false, chain(40)},
 		{"chain/41", false, chain(41)},
@@ -598,7 +854,8 @@ func (g *genState) path() string {
 			p = p + "/."
 		}
 	}
-	if !g.tame && r.Chance(1, 7) {
+	if r.Chance(1, 7) {
+		// rooted names are safe on a host directory too: filepath.Join(base, "/x") is base/x
 		p = "/" + p
 	}
 	if r.Chance(1, 40) {
@@ -752,11 +1009,12 @@ func (g *genState) op() Op {
 	case x < 97:
 		return Op{K: "Chtimes", P: g.path(), T: int64(1000000 + r.Intn(1000))}
 	case x < 98:
-		if g.tame {
-			return p1("Stat", g.path())
-		}
+		// the mode carries no type bits: on a host directory mknod(2) then makes a regular file (no privilege needed, no real device)
 		if r.Chance(1, 2) {
 			p := g.freshPath()
+			if r.Chance(1, 4) {
+				p = g.path()
+			}
 			g.known = append(g.known, p)
 			return Op{K: "Mknod", P: p, Perm: 0o660, Dev: 259 + r.Intn(3)}
 		}
@@ -786,6 +1044,25 @@ func randomSeq(r *gal.Rand, tame, unclean bool) []Op {
 	return ops
 }
 
+// a sequence on an in-memory filesystem in which most operations go through a SubFS view
+func randomSub(r *gal.Rand) (root string, ops []Op) {
+	root = gal.Pick(r, []string{"d", "d/e", "a", "/d", "b/c"})
+	g := &genState{r: r, unclean: r.Chance(1, 2)}
+	ops = []Op{mkdirall(strings.TrimPrefix(root, "/")), wfile("out", "o")}
+	g.known = append(g.known, "out")
+	n := 5 + r.Intn(26)
+	for i := 0; i < n; i++ {
+		o := g.op()
+		o.Via = r.Chance(3, 4)
+		if o.Via && r.Chance(1, 12) {
+			// names that try to leave the root
+			o.P = gal.Pick(r, []string{"../out", "..", "../" + gal.Pick(r, names), "x/../../out", "../../out"})
+		}
+		ops = append(ops, o)
+	}
+	return root, ops
+}
+
 // ---- shrinking a failing sequence -------------------------------------------------
 // `c17 -shrink <replay.json>`: the failing sequence of a replay file is cut down
 // on this side: first to its shortest failing prefix, then step by step (from
@@ -812,15 +1089,15 @@ func knownTags(root string) map[string]bool {
 	return m
 }
 
-func hasTag(coqdir string, target int, ops []Op, tag string) bool {
-	gops, obs := observe(target, "shrink", ops)
+func hasTag(coqdir string, target int, root string, ops []Op, tag string) bool {
+	gops, obs := observe(target, "shrink", root, ops)
 	dir, err := os.MkdirTemp("", "c17-shrink-")
 	if err != nil {
 		return false
 	}
 	defer os.RemoveAll(dir)
 	src := "From Apko Require Import Corr.C17.\nOpen Scope string_scope. Open Scope list_scope.\n" +
-		"Definition c : fs_case := " + caseTerm(target, gops, obs) + ".\n" +
+		"Definition c : fs_case := " + caseTerm(target, root, ops, gops, obs) + ".\n" +
 		"Eval vm_compute in (existsb (String.eqb " + gal.Str(tag) + ") (check_case c)).\n"
 	if err := os.WriteFile(dir+"/S.v", []byte(src), 0o644); err != nil {
 		return false
@@ -876,14 +1153,15 @@ func shrink(file, coqdir string) error {
 		tag = tags[0]
 	}
 	ops := in.Ops
-	if !hasTag(coqdir, target, ops, tag) {
+	root := in.Root
+	if !hasTag(coqdir, target, root, ops, tag) {
 		return fmt.Errorf("the sequence does not reproduce %s", tag)
 	}
 	// shortest failing prefix (a longer prefix keeps every tag of a shorter one)
 	lo, hi := 1, len(ops)
 	for lo < hi {
 		mid := (lo + hi) / 2
-		if hasTag(coqdir, target, ops[:mid], tag) {
+		if hasTag(coqdir, target, root, ops[:mid], tag) {
 			hi = mid
 		} else {
 			lo = mid + 1
@@ -893,11 +1171,11 @@ func shrink(file, coqdir string) error {
 	// drop single steps, last one excepted, from the end to the beginning
 	for i := len(ops) - 2; i >= 0; i-- {
 		cand := append(append([]Op{}, ops[:i]...), ops[i+1:]...)
-		if hasTag(coqdir, target, cand, tag) {
+		if hasTag(coqdir, target, root, cand, tag) {
 			ops = cand
 		}
 	}
-	_, obs := observe(target, "shrink", ops)
+	_, obs := observe(target, "shrink", root, ops)
 	rp["shrunk_tag"], _ = json.Marshal(tag)
 	rp["shrunk_ops"], _ = json.Marshal(ops)
 	rp["shrunk_observed"], _ = json.Marshal(obs)
@@ -932,10 +1210,16 @@ func main() {
 			runCase(w, tDir, sc.name, sc.ops)
 		}
 	}
+	for _, sc := range subCorpus() {
+		runCaseRoot(w, tSubMem, sc.name, sc.root, sc.ops)
+		runCaseRoot(w, tSubTar, sc.name, sc.root, sc.ops)
+	}
 	r := gal.NewRand(*seed)
 	n := 260
+	nsub := 50
 	if *tier == "thorough" {
 		n = 4000
+		nsub = 700
 	}
 	for i := 0; i < n; i++ {
 		switch {
@@ -955,8 +1239,14 @@ func main() {
 			runCase(w, tTar, "random", ops)
 		}
 	}
-	b, _ := json.Marshal(map[string]int{"sequences": n, "corpus_scenarios": len(corpus())})
+	for i := 0; i < nsub; i++ {
+		root, ops := randomSub(r)
+		runCaseRoot(w, tSubMem, "random-subfs", root, ops)
+		runCaseRoot(w, tSubTar, "random-subfs", root, ops)
+	}
+	b, _ := json.Marshal(map[string]int{"sequences": n, "subfs_sequences": nsub, "corpus_scenarios": len(corpus()), "subfs_corpus_scenarios": len(subCorpus())})
 	fmt.Printf("STAT %s\n", b)
+	printStats()
 	if err := w.Flush(); err != nil {
 		fmt.Fprintln(os.Stderr, err)
 		os.Exit(1)
